@@ -32,7 +32,7 @@ RULE = ("four case kinds in rotation 3:1:4:2 - split: texts of 0-40 (some 200) c
         "on/off; thorough adds five complete small scopes (every text over {a,\\n,\\r,\\x85,U+2028} up to length 5 and over "
         "{a,' ','2','8',\\n,\\r,\\x85,U+2028,\\x1c} up to length 4; "
         "every content over {a,\\n,\\r} up to length 7 with block sizes 1,2,3,5,default; every JSON Lines file of up "
-        "to 3 lines over 5 line kinds x 2 terminators, strict and lenient; every 1-3 byte string over "
+        "to 3 lines over 7 line kinds x 2 terminators, strict and lenient; every 1-3 byte string over "
         "the UTF-8 table's boundary bytes through the primitives); one case in eleven (prim) observes the CPython "
         "primitives of the model directly (bytes.splitlines, file iteration, lstrip, utf-8 decode); non-trivial = "
         "split/indent: >=2 breaks one of which is not \\n; rev: >=2 lines and a block edge inside the content; "
@@ -181,7 +181,7 @@ def sweep(tier):
                    "bs": [[1, "pos"], [2, "kw"], [3, "kw"], [5, "pos"], [4096, "default"]]}
     # every JSON Lines file of up to 3 lines over {int, padded string, corrupt, empty, white space} x {\n, \r\n},
     # with and without the final terminator, strict and ignore_errors
-    toks = [[49], [32, 34, 97, 34, 32], [120], [], [32, 9]]
+    toks = [[49], [32, 34, 97, 34, 32], [120], [], [32, 9], [110, 117, 108, 108], [123, 34, 97, 34, 58, 91, 93, 125]]
     k = 0
     for n in range(0, 4):
         for body in itertools.product(range(len(toks)), repeat=n):
@@ -444,7 +444,7 @@ def gen_jsonl(rng, tier):
     if mode in SBCS_MODES:
         runs = [[sbcs_defined(mode, r[0]), r[1]] for r in runs]
         runs = [r for r in runs if r[0]]
-    case = {"k": "jsonl", "runs": runs, "mode": mode, "ie": ie}
+    case = {"k": "jsonl", "runs": runs, "mode": mode, "ie": ie, "style": rng.randrange(9)}
     if rng.random() < 0.25 and (own_codec(mode) is not None or mode == "bytesio"):
         case["wrap"] = True
     if mode not in TEXT_MODES and rng.random() < 0.2:
@@ -617,6 +617,8 @@ def run_impl(case):
                         it = reverse_iter_lines(f, **kw)
                     elif how == "kw":
                         it = reverse_iter_lines(f, blocksize=bs, **kw)
+                    elif "preseek" in kw and "encoding" not in kw:
+                        it = reverse_iter_lines(f, bs, kw["preseek"])          # all positional
                     else:
                         it = reverse_iter_lines(f, bs, **kw)
                     lines = list(it)
@@ -635,23 +637,37 @@ def run_impl(case):
             for name, rev in (("fwd", False), ("rev", True)):
                 f = files.open()
                 try:
+                    style = case.get("style", 0)        # how the public API is used; all spellings mean the same
                     if rev:
                         if case.get("pre_cursor") is not None:
                             f.seek(case["pre_cursor"])         # reverse mode starts from the end regardless
-                        it = JSONLIterator(f, ignore_errors=case["ie"], reverse=True)
+                        if style % 3 == 1:
+                            it = JSONLIterator(f, bool(case["ie"]), 1)                 # positional, truthy
+                        elif style % 3 == 2:
+                            it = JSONLIterator(f, reverse=True, ignore_errors=(1 if case["ie"] else 0))
+                        else:
+                            it = JSONLIterator(f, ignore_errors=case["ie"], reverse=True)
                     elif case["ie"]:
-                        it = JSONLIterator(f, ignore_errors=True)
+                        it = JSONLIterator(f, True) if style % 3 == 1 else JSONLIterator(f, ignore_errors=True)
                     else:
-                        it = JSONLIterator(f)
+                        it = JSONLIterator(f, reverse=False) if style % 3 == 2 else JSONLIterator(f)
                     objs, err = [], False
-                    while True:
+                    drain = (style // 3) % 3
+                    if drain == 1:                      # the iterator protocol: for ... in
                         try:
-                            objs.append(_jobj(next(it)))
-                        except StopIteration:
-                            break
+                            for o in it:
+                                objs.append(_jobj(o))
                         except ValueError:
                             err = True
-                            break
+                    else:
+                        while True:
+                            try:
+                                objs.append(_jobj(it.next() if drain == 2 else next(it)))
+                            except StopIteration:
+                                break
+                            except ValueError:
+                                err = True
+                                break
                     res[name] = {"objs": objs, "err": err}
                 finally:
                     try:
